@@ -22,6 +22,10 @@ type Call struct {
 	Cut     int               `json:"cut"`
 	Params  map[string]string `json:"params"`
 	Label   string            `json:"label"`
+	// At: the call is made after this many operations of the history (the table keeps changing afterwards);
+	// Again: and once more, unchanged, after the whole history
+	At    int  `json:"at,omitempty"`
+	Again bool `json:"again,omitempty"`
 }
 
 type Case struct {
@@ -145,6 +149,8 @@ func gen(t *rapid.T) Case {
 		case 1:
 			call.Params["extra"] = "zz"
 		}
+		call.At = rapid.IntRange(0, len(c.Ops)).Draw(t, "callAt")
+		call.Again = rapid.Bool().Draw(t, "callAgain")
 		c.Calls = append(c.Calls, call)
 	}
 	for i, n := 0, rapid.IntRange(0, 5).Draw(t, "npaths"); i < n; i++ {
@@ -161,9 +167,6 @@ func check(c Case, st *rig.Stats) error {
 		own, _ := env.Options(rig.Opts{Icpt: s.Icpt, Extra: []mux.Option{mux.WithURLDomain(c.Domain)}})
 		s.R = &rig.Router{Router: g.New("r", nil, own...), Env: env, NotFound: g.NotFound}
 	}
-	for _, op := range c.Ops {
-		s.Apply(op)
-	}
 	domain := strings.TrimSuffix(c.Domain, "/")
 	if strings.HasSuffix(c.Domain, "/") {
 		domain = c.Domain[:len(c.Domain)-1]
@@ -171,7 +174,7 @@ func check(c Case, st *rig.Stats) error {
 	nontriv := false
 	var classes []string
 
-	for i, call := range c.Calls {
+	judge := func(i int, call Call, when string) error {
 		var got string
 		var err error
 		dom := domain
@@ -195,7 +198,7 @@ func check(c Case, st *rig.Stats) error {
 		if call.Entry == "mux" {
 			dom = ""
 		}
-		where := fmt.Sprintf("call %d %s strict=%v URL(%q, %v) [%s], live %v, domain %q", i, call.Entry, strict, call.Pattern, call.Params, call.Label, s.M.Live(), c.Domain)
+		where := fmt.Sprintf("call %d (%s) %s strict=%v URL(%q, %v) [%s], live %v, domain %q", i, when, call.Entry, strict, call.Pattern, call.Params, call.Label, s.M.Live(), c.Domain)
 		if panicked {
 			return rig.Violf("panic", "%s panicked: %v", where, v)
 		}
@@ -207,11 +210,11 @@ func check(c Case, st *rig.Stats) error {
 		pp, perr := pat.Parse(call.Pattern, ic)
 		if perr == pat.ErrUnbalanced || perr == pat.ErrEmpty || strings.Contains(call.Pattern, "{-}") || strings.Contains(call.Pattern, "{-:") {
 			classes = append(classes, "unclassified-pattern(no-panic-only)")
-			continue
+			return nil
 		}
 		if !strict && len(call.Params) == 0 {
 			classes = append(classes, "non-strict-empty-params(no-claim)")
-			continue
+			return nil
 		}
 		wantErr := ""
 		var want string
@@ -257,6 +260,31 @@ func check(c Case, st *rig.Stats) error {
 			classes = append(classes, "error-expected-and-returned")
 		default:
 			classes = append(classes, "url-built")
+		}
+		return nil
+	}
+	// the calls are spread over the history: URL building is asked while the table is still changing
+	for k := 0; k <= len(c.Ops); k++ {
+		for i, call := range c.Calls {
+			if call.At == k {
+				if err := judge(i, call, fmt.Sprintf("after %d of %d operations", k, len(c.Ops))); err != nil {
+					return err
+				}
+				if k < len(c.Ops) {
+					classes = append(classes, "call-before-the-history-ends")
+				}
+			}
+		}
+		if k < len(c.Ops) {
+			s.Apply(c.Ops[k])
+		}
+	}
+	for i, call := range c.Calls {
+		if call.Again && call.At < len(c.Ops) {
+			if err := judge(i, call, "again after the whole history"); err != nil {
+				return err
+			}
+			classes = append(classes, "same-call-repeated-after-later-operations")
 		}
 	}
 
